@@ -80,17 +80,68 @@ class _Collector(ast.NodeVisitor):
         self.visit(node.body)
         self.depth -= 1
 
+    def visit_ClassDef(self, node):
+        base_names = {b.id for b in node.bases if isinstance(b, ast.Name)} | {b.attr for b in node.bases if isinstance(b, ast.Attribute)}
+        if base_names & _plugin_base_names():
+            # a plugin class written by the user (CustomCheck subclass ...): its methods are called by
+            # pyanalyze, so breaking them is breaking the plugin contract, not the program under check
+            return
+        if self.depth == 0:
+            # constants assigned in a class body that runs at import (enum members, class attributes):
+            # only constant-for-constant / constant-for-display mutations are applied there
+            for st_ in node.body:
+                if isinstance(st_, (ast.Assign, ast.AnnAssign)) and st_.value is not None:
+                    for c in ast.walk(st_.value):
+                        if isinstance(c, ast.Constant):
+                            c._pv_import_time = True
+                            self.sites.append(c)
+        self.generic_visit(node)
+
+    def visit_Call(self, node):
+        # arguments of constructors of pyanalyze's own Value classes (the expected value in
+        # assert_is_value(x, KnownValue(...)), CanAssignError(...) in a user plugin) are test scaffolding /
+        # plugin code, not the program under check: malformed arguments there are API misuse by the caller
+        if isinstance(node.func, ast.Name) and node.func.id in _value_class_names():
+            return
+        self.generic_visit(node)
+
     def generic_visit(self, node):
         if self.depth > 0 and isinstance(node, (ast.expr, ast.stmt)):
             self.sites.append(node)
         super().generic_visit(node)
 
 
+_VALUE_NAMES = None
+
+
+def _value_class_names():
+    global _VALUE_NAMES
+    if _VALUE_NAMES is None:
+        import pyanalyze.value as _v
+
+        _VALUE_NAMES = {n for n, o in vars(_v).items() if isinstance(o, type) and getattr(o, "__module__", "") == "pyanalyze.value"}
+    return _VALUE_NAMES
+
+
+_PLUGIN_BASES = None
+
+
+def _plugin_base_names():
+    global _PLUGIN_BASES
+    if _PLUGIN_BASES is None:
+        import pyanalyze.extensions as _e
+
+        _PLUGIN_BASES = {n for n, o in vars(_e).items() if isinstance(o, type) and getattr(o, "__module__", "") == "pyanalyze.extensions"}
+        _PLUGIN_BASES |= _value_class_names()
+    return _PLUGIN_BASES
+
+
 MUTATIONS = ["swap-operands", "star-wrap", "drop-arg", "dup-arg", "const-change", "name-change", "into-finally",
              "negate", "subscript", "attr", "call-it", "await", "delete-stmt", "dup-stmt", "walrus", "fstring",
              "compare-chain", "keyword-arg", "starstar", "ann-assign", "listcomp", "lambda", "yield",
              "fstring-spec", "fstring-nested-spec", "percent-format", "dot-format", "augassign", "slice", "dict-spread",
-             "unpack-assign", "del-target", "global-stmt", "async-for", "with-item", "match-stmt", "raise-from"]
+             "unpack-assign", "del-target", "global-stmt", "async-for", "with-item", "match-stmt", "raise-from",
+             "const-to-list", "const-to-dict", "const-to-set", "const-to-big", "const-to-tuple"]
 
 
 def mutate(src, choices):
@@ -124,11 +175,13 @@ def mutate(src, choices):
 
 
 def applicable(n, name):
+    if getattr(n, "_pv_import_time", False) and not name.startswith("const-"):
+        return False
     if name == "swap-operands":
         return isinstance(n, (ast.BinOp, ast.Compare)) and (not isinstance(n, ast.Compare) or len(n.ops) == 1)
     if name in ("star-wrap", "drop-arg", "dup-arg", "keyword-arg", "starstar"):
         return isinstance(n, ast.Call) and (n.args or name in ("keyword-arg", "starstar"))
-    if name == "const-change":
+    if name in ("const-change", "const-to-list", "const-to-dict", "const-to-set", "const-to-big", "const-to-tuple"):
         return isinstance(n, ast.Constant)
     if name == "name-change":
         return isinstance(n, ast.Name) and isinstance(n.ctx, ast.Load)
@@ -175,6 +228,16 @@ def apply_one(n, name):
         v = n.value
         new = {int: "x", str: 1, bool: None, type(None): 0, float: b"b", bytes: 1.5}.get(type(v), 0)
         return ast.Constant(new)
+    if name == "const-to-list":
+        return ast.List(elts=[c(n), ast.Constant(2)], ctx=ast.Load())
+    if name == "const-to-dict":
+        return ast.Dict(keys=[c(n)], values=[ast.List(elts=[], ctx=ast.Load())])
+    if name == "const-to-set":
+        return ast.Set(elts=[c(n), ast.Constant("s")])
+    if name == "const-to-tuple":
+        return ast.Tuple(elts=[c(n), ast.List(elts=[c(n)], ctx=ast.Load())], ctx=ast.Load())
+    if name == "const-to-big":
+        return ast.BinOp(left=ast.Constant(10), op=ast.Pow(), right=ast.Constant(30))
     if name == "name-change":
         return ast.Name(id="undefined_name_zz" if n.id != "undefined_name_zz" else "x", ctx=ast.Load())
     if name == "into-finally":
